@@ -236,7 +236,10 @@ fn main() {
             let t: Result<Targets, String> = s.parse::<Targets>().map_err(|e| e.to_string());
             let e = env(&s);
             let mut case = json!({"ev": "case", "i": i, "s": s, "dirs": c["dirs"], "tv": c["tv"], "odd": c["odd"].as_bool().unwrap_or(false), "script": script, "t_ok": t.is_ok(), "e_ok": e.is_ok()});
-            let mut runs: Vec<(String, Dispatch, RecLayer)> = vec![];
+            // every stack is built right before its script runs and dropped afterwards: no other dispatcher is alive then, so
+            // nothing but the stack's own summaries (max-level hint, interests) decides what reaches it
+            type Mk = Box<dyn FnOnce() -> Option<(Dispatch, RecLayer)>>;
+            let mut runs: Vec<(String, Mk)> = vec![];
             let mut e_hint = 9u64;
             if let Ok(t) = &t {
                 let mut would = vec![];
@@ -252,16 +255,14 @@ fn main() {
                     Ok(t2) => {
                         case["t_rt"] = json!(if t2 == *t { "same" } else { "differs" });
                         case["t_rt_disp"] = json!(t2.to_string());
-                        for (n, d, r) in stacks_targets(&t2) {
-                            if n == "T-global" {
-                                runs.push(("T-reparsed".into(), d, r));
-                            }
-                        }
+                        runs.push(("T-reparsed".into(), Box::new(move || stacks_targets(&t2).into_iter().find(|x| x.0 == "T-global").map(|x| (x.1, x.2)))));
                     }
                     Err(e) => case["t_rt"] = json!(format!("error: {e}")),
                 }
-                for (n, d, r) in stacks_targets(t) {
-                    runs.push((n.into(), d, r));
+                let names: Vec<&'static str> = stacks_targets(t).into_iter().map(|x| x.0).collect();
+                for n in names {
+                    let t3 = t.clone();
+                    runs.push((n.into(), Box::new(move || stacks_targets(&t3).into_iter().find(|x| x.0 == n).map(|x| (x.1, x.2)))));
                 }
             }
             if let Ok(e) = &e {
@@ -273,20 +274,31 @@ fn main() {
                     Ok(e2) => {
                         case["e_rt"] = json!("ok");
                         case["e_rt_disp"] = json!(e2.to_string());
-                        let r = RecLayer::default();
-                        runs.push(("E-reparsed".into(), Dispatch::new(tracing_subscriber::registry().with(e2).with(r.clone())), r));
+                        let disp2 = disp.clone();
+                        runs.push(("E-reparsed".into(), Box::new(move || {
+                            let r = RecLayer::default();
+                            env(&disp2).ok().map(|e3| (Dispatch::new(tracing_subscriber::registry().with(e3).with(r.clone())), r))
+                        })));
                     }
                     Err(er) => case["e_rt"] = json!(format!("error: {er}")),
                 }
-                for (n, d, r) in stacks_env(&s, c["x"].as_u64().unwrap_or(3)) {
-                    runs.push((n.into(), d, r));
+                let x = c["x"].as_u64().unwrap_or(3);
+                let names: Vec<&'static str> = stacks_env(&s, x).into_iter().map(|x| x.0).collect();
+                for n in names {
+                    let s3 = s.clone();
+                    runs.push((n.into(), Box::new(move || stacks_env(&s3, x).into_iter().find(|y| y.0 == n).map(|y| (y.1, y.2)))));
                 }
             }
             lines.push(case);
             // the replies of the plain global-layer stack: what the same directive set built another way must also answer
             let mut reference: Option<Vec<Value>> = None;
-            for (n, d, r) in runs {
+            for (n, mk) in runs {
+                let (d, r) = match mk() {
+                    Some(x) => x,
+                    None => continue,
+                };
                 let replies = run_script(&d, &r, &script);
+                drop(d);
                 if n == "E-global" {
                     reference = Some(replies.clone());
                 }
